@@ -139,3 +139,565 @@ Proof.
   destruct (inverse_mod_coprime a n ltac:(lia) (prime_gcd n a Hp Ha)) as [u [H1 H3]].
   exists u. split; [assumption|]. rewrite H3. apply Z.mod_small. lia.
 Qed.
+
+(* ============================================================================================ *)
+(* congruences modulo n, as an inductive wrapper so that `rewrite` goes through the setoid machinery *)
+
+Inductive eqm (n a b : Z) : Prop := eqm_intro : a mod n = b mod n -> eqm n a b.
+
+Lemma eqm_def n a b : eqm n a b <-> a mod n = b mod n.
+Proof. split; [intros [H]; exact H|apply eqm_intro]. Qed.
+
+Lemma eqm_to_mod n a b : eqm n a b -> a mod n = b mod n.
+Proof. apply eqm_def. Qed.
+
+#[export] Instance eqm_equiv n : Equivalence (eqm n).
+Proof.
+  split.
+  - intros a. apply eqm_def. reflexivity.
+  - intros a b H. apply eqm_def in H. apply eqm_def. symmetry. exact H.
+  - intros a b c H1 H2. apply eqm_def in H1, H2. apply eqm_def. congruence.
+Qed.
+
+#[export] Instance eqm_add n : Proper (eqm n ==> eqm n ==> eqm n) Z.add.
+Proof.
+  intros a a' Ha b b' Hb. apply eqm_def in Ha, Hb. apply eqm_def.
+  rewrite (Zplus_mod a b), (Zplus_mod a' b'), Ha, Hb. reflexivity.
+Qed.
+
+#[export] Instance eqm_mul n : Proper (eqm n ==> eqm n ==> eqm n) Z.mul.
+Proof.
+  intros a a' Ha b b' Hb. apply eqm_def in Ha, Hb. apply eqm_def.
+  rewrite (Zmult_mod a b), (Zmult_mod a' b'), Ha, Hb. reflexivity.
+Qed.
+
+#[export] Instance eqm_sub n : Proper (eqm n ==> eqm n ==> eqm n) Z.sub.
+Proof.
+  intros a a' Ha b b' Hb. apply eqm_def in Ha, Hb. apply eqm_def.
+  rewrite (Zminus_mod a b), (Zminus_mod a' b'), Ha, Hb. reflexivity.
+Qed.
+
+#[export] Instance eqm_opp n : Proper (eqm n ==> eqm n) Z.opp.
+Proof.
+  intros a a' Ha. rewrite <- (Z.sub_0_l a), <- (Z.sub_0_l a'). apply eqm_sub; [reflexivity|exact Ha].
+Qed.
+
+Lemma eqm_refl' n a b : a = b -> eqm n a b.
+Proof. intros ->. reflexivity. Qed.
+
+Lemma eqm_mod n a : eqm n (a mod n) a.
+Proof. apply eqm_def. apply Zmod_mod. Qed.
+
+Lemma eqm_one n a : 2 <= n -> (eqm n a 1 <-> a mod n = 1).
+Proof. intros H. rewrite eqm_def. rewrite (Z.mod_small 1 n) by lia. reflexivity. Qed.
+
+Lemma eqm_zero n a : eqm n a 0 <-> a mod n = 0.
+Proof. rewrite eqm_def. rewrite Zmod_0_l. reflexivity. Qed.
+
+Lemma eqm_add_mul n a q : n <> 0 -> eqm n (a + q * n) a.
+Proof. intros. apply eqm_def. apply Z.mod_add. assumption. Qed.
+
+Lemma eqm_inv_unique n s w w' : eqm n (s * w) 1 -> eqm n (s * w') 1 -> eqm n w w'.
+Proof.
+  intros H1 H2.
+  transitivity (w * (s * w')).
+  - rewrite H2. apply eqm_refl'. ring.
+  - replace (w * (s * w')) with ((s * w) * w') by ring. rewrite H1. apply eqm_refl'. ring.
+Qed.
+
+Lemma land1 y : Z.land y 1 = if Z.odd y then 1 else 0.
+Proof. change 1 with (Z.ones 1) at 1. rewrite Z.land_ones by lia. change (2 ^ 1) with 2. apply Zmod_odd. Qed.
+
+(* ============================================================================================ *)
+Section Group.
+  Variable pt : Type.
+  Variable add : pt -> pt -> pt.
+  Variable neg : pt -> pt.
+  Variable O : pt.
+  Variable smul : Z -> pt -> pt.
+  Variable G : pt.
+  Variable n : Z.
+  Variable coords : pt -> option (Z * Z).
+  Variable lift_x : Z -> option (pt * pt).
+  Variable x_canon : Z -> Prop.
+  Variable gen_k : Z -> Z -> Z -> outcome Z.
+
+  Hypothesis GL : group_laws pt add neg O smul n coords.
+  Hypothesis Hn : prime n.
+
+  Local Notation verify' := (verify pt add smul G n coords).
+  Local Notation sign_step' := (sign_step pt smul G n coords).
+  Local Notation sign_loop' := (sign_loop pt smul G n coords).
+  Local Notation sign_with_recid' := (sign_with_recid pt smul G n coords gen_k).
+  Local Notation recover' := (recover pt add smul G n lift_x).
+  Local Notation valid' := (ecdsa_valid pt add smul G n coords).
+  Local Notation "a == b" := (eqm n a b) (at level 70).
+
+  Let n_ge_2 : 2 <= n.
+  Proof. apply prime_ge_2. exact Hn. Qed.
+
+  (* ---- derived group facts ---- *)
+  Lemma add_O_r P : add P O = P.
+  Proof. rewrite (gl_comm _ _ _ _ _ _ _ GL). apply (gl_O_l _ _ _ _ _ _ _ GL). Qed.
+
+  Lemma add_neg_l P : add (neg P) P = O.
+  Proof. rewrite (gl_comm _ _ _ _ _ _ _ GL). apply (gl_neg_r _ _ _ _ _ _ _ GL). Qed.
+
+  Lemma add_cancel_l P Q R : add P Q = add P R -> Q = R.
+  Proof.
+    intros H. apply (f_equal (add (neg P))) in H.
+    rewrite !(gl_assoc _ _ _ _ _ _ _ GL), add_neg_l, !(gl_O_l _ _ _ _ _ _ _ GL) in H. exact H.
+  Qed.
+
+  Lemma add_swap A B C D : add (add A B) (add C D) = add (add A C) (add B D).
+  Proof.
+    rewrite <- (gl_assoc _ _ _ _ _ _ _ GL A B), (gl_assoc _ _ _ _ _ _ _ GL B C D), (gl_comm _ _ _ _ _ _ _ GL B C),
+      <- (gl_assoc _ _ _ _ _ _ _ GL C B D), (gl_assoc _ _ _ _ _ _ _ GL A C). reflexivity.
+  Qed.
+
+  Lemma smul_0 P : smul 0 P = O.
+  Proof.
+    pose proof (gl_smul_add _ _ _ _ _ _ _ GL 0 0 P) as H. cbn in H.
+    apply (add_cancel_l (smul 0 P)). rewrite add_O_r. symmetry. exact H.
+  Qed.
+
+  Lemma smul_opp a P : smul (- a) P = neg (smul a P).
+  Proof.
+    apply (add_cancel_l (smul a P)).
+    rewrite <- (gl_smul_add _ _ _ _ _ _ _ GL), Z.add_opp_diag_r, smul_0, (gl_neg_r _ _ _ _ _ _ _ GL). reflexivity.
+  Qed.
+
+  Lemma smul_O a : smul a O = O.
+  Proof.
+    rewrite <- (smul_0 O) at 1. rewrite <- (gl_smul_mul _ _ _ _ _ _ _ GL), Z.mul_0_r. apply smul_0.
+  Qed.
+
+  Lemma smul_eqm a b P : a == b -> smul a P = smul b P.
+  Proof.
+    intros H. apply eqm_def in H.
+    assert (Ha : a = b + (a / n - b / n) * n).
+    { rewrite (Z.div_mod a n), (Z.div_mod b n) at 1 by lia. rewrite H. ring. }
+    rewrite Ha, (gl_smul_add _ _ _ _ _ _ _ GL), (gl_smul_mul _ _ _ _ _ _ _ GL), (gl_order _ _ _ _ _ _ _ GL), smul_O.
+    apply add_O_r.
+  Qed.
+
+  Lemma neg_O : neg O = O.
+  Proof. rewrite <- (gl_O_l _ _ _ _ _ _ _ GL (neg O)). apply (gl_neg_r _ _ _ _ _ _ _ GL). Qed.
+
+  Lemma neg_neg P : neg (neg P) = P.
+  Proof.
+    apply (add_cancel_l (neg P)). rewrite (gl_neg_r _ _ _ _ _ _ _ GL), add_neg_l. reflexivity.
+  Qed.
+
+  Lemma neg_add P Q : neg (add P Q) = add (neg P) (neg Q).
+  Proof.
+    apply (add_cancel_l (add P Q)).
+    rewrite (gl_neg_r _ _ _ _ _ _ _ GL), add_swap, !(gl_neg_r _ _ _ _ _ _ _ GL). symmetry. apply add_O_r.
+  Qed.
+
+  Lemma smul_add_pt a P Q : smul a (add P Q) = add (smul a P) (smul a Q).
+  Proof.
+    assert (Hpos : forall a, 0 <= a -> smul a (add P Q) = add (smul a P) (smul a Q)).
+    { apply natlike_ind.
+      - rewrite !smul_0. symmetry. apply add_O_r.
+      - intros x Hx IH. unfold Z.succ.
+        rewrite !(gl_smul_add _ _ _ _ _ _ _ GL), !(gl_smul_1 _ _ _ _ _ _ _ GL), IH. apply add_swap. }
+    destruct (Z_le_gt_dec 0 a) as [Ha|Ha]; [apply Hpos; assumption|].
+    replace a with (- (- a)) by lia. rewrite !(smul_opp (- a)), Hpos by lia. apply neg_add.
+  Qed.
+
+  Lemma smul_smul a b P : smul a (smul b P) = smul (a * b) P.
+  Proof. symmetry. apply (gl_smul_mul _ _ _ _ _ _ _ GL). Qed.
+
+  Lemma coords_neg_none P : coords P = None -> coords (neg P) = None.
+  Proof.
+    intros H. destruct (coords (neg P)) as [[x y]|] eqn:E; [|reflexivity].
+    apply (gl_coords_neg _ _ _ _ _ _ _ GL) in E. destruct E as [y' E]. rewrite neg_neg in E. congruence.
+  Qed.
+
+  (* ---- the model's inverse on non-zero residues ---- *)
+  Lemma inverse_ok a : a mod n <> 0 -> exists u, inverse n a = Ret u /\ a * u == 1.
+  Proof.
+    intros Ha. destruct (inverse_mod_prime n a Hn Ha) as [u [H1 H2]].
+    exists u. split; [exact H1|]. apply eqm_one; assumption.
+  Qed.
+
+  Lemma inverse_ret a u : inverse n a = Ret u -> a * u == 1.
+  Proof. intros H. apply inverse_mod_ret in H; [apply eqm_def; exact H|lia]. Qed.
+
+  Lemma inverse_no_fuel a : inverse n a <> OutOfFuel.
+  Proof.
+    unfold inverse. destruct (Z.eq_dec (Z.gcd a n) 1) as [Hg|Hg].
+    - destruct (inverse_mod_coprime a n ltac:(lia) Hg) as [u [H _]]. rewrite H. discriminate.
+    - rewrite inverse_mod_not_coprime by (assumption || lia). discriminate.
+  Qed.
+
+  Lemma in_range_nz s : 1 <= s < n -> s mod n <> 0.
+  Proof. intros H. rewrite Z.mod_small; lia. Qed.
+
+  Lemma out_of_range_false r s : out_of_range n r s = false <-> 1 <= r < n /\ 1 <= s < n.
+  Proof. unfold out_of_range. lia. Qed.
+
+  (* ---- verify ---- *)
+  Definition sum_point (Q : pt) (z r w : Z) : pt := add (smul (z * w) G) (smul (r * w) Q).
+
+  Definition verdict (P : pt) (r : Z) : bool :=
+    match coords P with None => false | Some (x, _) => x mod n =? r end.
+
+  Lemma verify_in_range Q z r s : z <> 0 -> 1 <= r < n -> 1 <= s < n ->
+    exists si, inverse n s = Ret si /\ s * si == 1 /\ verify' (Some Q) z r s = Ret (verdict (sum_point Q z r si) r).
+  Proof.
+    intros Hz Hr Hs. destruct (inverse_ok s (in_range_nz s Hs)) as [si [Hi Hsi]].
+    exists si. split; [exact Hi|]. split; [exact Hsi|].
+    unfold verify. destruct (z =? 0) eqn:Ez; [lia|].
+    rewrite (proj2 (out_of_range_false r s)) by tauto.
+    rewrite Hi. cbn [bind]. unfold verdict, sum_point.
+    destruct (coords _) as [[x y]|]; reflexivity.
+  Qed.
+
+  Lemma sum_point_inv_indep Q z r w w' : w == w' -> sum_point Q z r w = sum_point Q z r w'.
+  Proof.
+    intros H. unfold sum_point. f_equal; apply smul_eqm; rewrite H; reflexivity.
+  Qed.
+
+  Lemma verify_rejects Qo z r s : ~ (1 <= r < n /\ 1 <= s < n) -> verify' Qo z r s = Ret false.
+  Proof.
+    intros H. unfold verify. destruct (z =? 0); [reflexivity|].
+    destruct (out_of_range n r s) eqn:E; [reflexivity|]. apply out_of_range_false in E. contradiction.
+  Qed.
+
+  Lemma verify_zero Qo r s : verify' Qo 0 r s = Ret false.
+  Proof. reflexivity. Qed.
+
+  Lemma verify_total Q z r s : exists b, verify' (Some Q) z r s = Ret b.
+  Proof.
+    destruct (Z.eq_dec z 0) as [->|Hz]; [eexists; apply verify_zero|].
+    destruct (out_of_range n r s) eqn:E.
+    - exists false. unfold verify. destruct (z =? 0); [reflexivity|]. rewrite E. reflexivity.
+    - apply out_of_range_false in E. destruct E as [Hr Hs].
+      destruct (verify_in_range Q z r s Hz Hr Hs) as [si [_ [_ H]]]. eauto.
+  Qed.
+
+  Lemma verify_iff Q z r s : verify' (Some Q) z r s = Ret true <-> z <> 0 /\ valid' Q z r s.
+  Proof.
+    split.
+    - intros H.
+      assert (Hz : z <> 0) by (intros ->; rewrite verify_zero in H; discriminate).
+      destruct (out_of_range n r s) eqn:E.
+      { unfold verify in H. destruct (z =? 0); [discriminate|]. rewrite E in H. discriminate. }
+      apply out_of_range_false in E. destruct E as [Hr Hs].
+      destruct (verify_in_range Q z r s Hz Hr Hs) as [si [_ [Hsi Hv]]].
+      rewrite Hv in H. inversion H as [Hb]. unfold verdict, sum_point in Hb.
+      split; [exact Hz|]. split; [exact Hr|]. split; [exact Hs|].
+      destruct (coords _) as [[x y]|] eqn:Ec; [|discriminate].
+      exists si, x, y. split; [|split; [exact Ec|lia]].
+      unfold inv_mod_n. apply eqm_one; assumption.
+    - intros [Hz [Hr [Hs [w [x [y [Hw [Hc Hx]]]]]]]].
+      destruct (verify_in_range Q z r s Hz Hr Hs) as [si [_ [Hsi Hv]]].
+      rewrite Hv. f_equal.
+      assert (Hww : s * w == 1).
+      { apply eqm_one; assumption. }
+      rewrite (sum_point_inv_indep Q z r si w (eqm_inv_unique n s si w Hsi Hww)).
+      unfold verdict, sum_point. rewrite Hc. lia.
+  Qed.
+
+  Lemma verdict_neg P r : verdict (neg P) r = verdict P r.
+  Proof.
+    unfold verdict. destruct (coords P) as [[x y]|] eqn:E.
+    - destruct (gl_coords_neg _ _ _ _ _ _ _ GL P x y E) as [y' E']. rewrite E'. reflexivity.
+    - rewrite coords_neg_none by assumption. reflexivity.
+  Qed.
+
+  Lemma verify_low_s Q z r s : verify' (Some Q) z r (n - s) = verify' (Some Q) z r s.
+  Proof.
+    destruct (Z.eq_dec z 0) as [->|Hz]; [reflexivity|].
+    destruct (out_of_range n r s) eqn:E.
+    - assert (~ (1 <= r < n /\ 1 <= s < n)) by (rewrite <- out_of_range_false; congruence).
+      rewrite !verify_rejects by lia. reflexivity.
+    - apply out_of_range_false in E. destruct E as [Hr Hs].
+      destruct (verify_in_range Q z r s Hz Hr Hs) as [si [_ [Hsi Hv]]].
+      destruct (verify_in_range Q z r (n - s) Hz Hr ltac:(lia)) as [si' [_ [Hsi' Hv']]].
+      rewrite Hv, Hv'. f_equal.
+      assert (Hopp : si' == - si).
+      { apply (eqm_inv_unique n (n - s)); [exact Hsi'|].
+        transitivity (s * si); [|exact Hsi].
+        replace ((n - s) * - si) with (s * si + (- si) * n) by ring.
+        apply eqm_add_mul. lia. }
+      rewrite (sum_point_inv_indep Q z r si' (- si) Hopp).
+      unfold sum_point.
+      replace (z * - si) with (- (z * si)) by ring. replace (r * - si) with (- (r * si)) by ring.
+      rewrite !smul_opp, <- neg_add. apply verdict_neg.
+  Qed.
+
+  (* ---- sign ---- *)
+  Lemma sign_step_some d z k r s c : sign_step' d z k = Ret (Some (r, s, c)) ->
+    exists x y ik, coords (smul k G) = Some (x, y) /\ inverse n k = Ret ik /\
+      r = x mod n /\ s = (ik * (z + (d * r) mod n)) mod n /\ r <> 0 /\ s <> 0 /\
+      c = (if n <? x then Z.land y 1 + 2 else Z.land y 1).
+  Proof.
+    unfold sign_step. intros H.
+    destruct (coords (smul k G)) as [[x y]|] eqn:Ec; [|discriminate].
+    destruct (inverse n k) as [ik| |] eqn:Ei; cbn [bind] in H; try discriminate.
+    destruct (negb (x mod n =? 0) && negb (_ =? 0)) eqn:Eb; [|discriminate].
+    inversion H; subst. exists x, y, ik. repeat split; try reflexivity; lia.
+  Qed.
+
+  Lemma sign_step_sig d z k r s c : sign_step' d z k = Ret (Some (r, s, c)) ->
+    ecdsa_sig_with_nonce pt smul G n coords d z k r s /\ 0 <= c < 4 /\
+    exists x y, coords (smul k G) = Some (x, y) /\ c = (if n <? x then Z.land y 1 + 2 else Z.land y 1).
+  Proof.
+    intros H. apply sign_step_some in H. destruct H as [x [y [ik [Hc [Hi [Hr [Hs [Hr0 [Hs0 Hcc]]]]]]]]].
+    split; [|split].
+    - exists x, y. repeat split; try assumption.
+      + subst s. apply Z.mod_pos_bound. lia.
+      + subst s. apply Z.mod_pos_bound. lia.
+      + apply inverse_ret in Hi. apply eqm_to_mod.
+        rewrite Hs. rewrite eqm_mod. rewrite eqm_mod.
+        replace (ik * (z + d * r) * k) with ((k * ik) * (z + r * d)) by ring. rewrite Hi. apply eqm_refl'. ring.
+    - rewrite land1 in Hcc. destruct (n <? x), (Z.odd y); lia.
+    - eauto.
+  Qed.
+
+  Lemma sign_loop_ret d z : forall fuel k0 sig, sign_loop' fuel d z k0 = Ret sig ->
+    exists k, k0 <= k /\ sign_step' d z k = Ret (Some sig) /\
+              forall i, k0 <= i < k -> sign_step' d z i = Ret None.
+  Proof.
+    induction fuel as [|f IH]; intros k0 sig H; cbn [sign_loop] in H; [discriminate|].
+    destruct (sign_step' d z k0) as [[sg|]| |] eqn:E; cbn [bind] in H; try discriminate.
+    - inversion H; subst. exists k0. split; [lia|]. split; [exact E|]. intros; lia.
+    - apply IH in H. destruct H as [k [Hk [Hs Hb]]]. exists k. split; [lia|]. split; [exact Hs|].
+      intros i Hi. destruct (Z.eq_dec i k0) as [->|]; [exact E|]. apply Hb. lia.
+  Qed.
+
+  (* the point that verify computes for the signer's key is the nonce point *)
+  Lemma signer_point d z k r s si : (s * k) mod n = (z + r * d) mod n -> s * si == 1 ->
+    sum_point (smul d G) z r si = smul k G.
+  Proof.
+    intros Hs Hsi. unfold sum_point.
+    rewrite smul_smul, <- (gl_smul_add _ _ _ _ _ _ _ GL).
+    apply smul_eqm.
+    replace (z * si + r * si * d) with (si * (z + r * d)) by ring.
+    apply eqm_def in Hs. rewrite <- Hs.
+    replace (si * (s * k)) with ((s * si) * k) by ring. rewrite Hsi. apply eqm_refl'. ring.
+  Qed.
+
+  Lemma sig_with_nonce_verifies d z k r s : z <> 0 ->
+    ecdsa_sig_with_nonce pt smul G n coords d z k r s ->
+    1 <= r < n /\ 1 <= s < n /\ verify' (Some (smul d G)) z r s = Ret true /\
+    forall si, s * si == 1 -> sum_point (smul d G) z r si = smul k G.
+  Proof.
+    intros Hz [x [y [Hc [Hr [Hr0 [Hs [Hs0 He]]]]]]].
+    assert (Hrr : 1 <= r < n) by (pose proof (Z.mod_pos_bound x n ltac:(lia)); lia).
+    assert (Hss : 1 <= s < n) by lia.
+    split; [exact Hrr|]. split; [exact Hss|]. split.
+    - destruct (verify_in_range (smul d G) z r s Hz Hrr Hss) as [si [_ [Hsi Hv]]].
+      rewrite Hv. f_equal. rewrite (signer_point d z k r s si He Hsi).
+      unfold verdict. rewrite Hc. lia.
+    - intros si Hsi. apply (signer_point d z k r s si He Hsi).
+  Qed.
+
+  Lemma sign_ret fuel d z r s c : sign_with_recid' fuel d z = Ret (r, s, c) ->
+    z <> 0 /\ exists k0 k, gen_k n d z = Ret k0 /\ k0 <= k /\ sign_step' d z k = Ret (Some (r, s, c)) /\
+                         forall i, k0 <= i < k -> sign_step' d z i = Ret None.
+  Proof.
+    unfold sign_with_recid. intros H. destruct (z =? 0) eqn:Ez; [discriminate|].
+    split; [lia|].
+    destruct (gen_k n d z) as [k0| |] eqn:Ek; cbn [bind] in H; try discriminate.
+    apply sign_loop_ret in H. destruct H as [k H]. exists k0, k. tauto.
+  Qed.
+
+  Theorem sign_verifies fuel d z r s c : sign_with_recid' fuel d z = Ret (r, s, c) ->
+    1 <= r < n /\ 1 <= s < n /\ 0 <= c < 4 /\ verify' (Some (smul d G)) z r s = Ret true.
+  Proof.
+    intros H. apply sign_ret in H. destruct H as [Hz [k0 [k [_ [_ [Hs _]]]]]].
+    apply sign_step_sig in Hs. destruct Hs as [Hsig [Hc _]].
+    destruct (sig_with_nonce_verifies d z k r s Hz Hsig) as [Hr [Hs' [Hv _]]]. tauto.
+  Qed.
+
+  (* sign = sign_with_recid without the recovery id *)
+  Lemma sign_plain fuel d z r s : sign pt smul G n coords gen_k fuel d z = Ret (r, s) <->
+    exists c, sign_with_recid' fuel d z = Ret (r, s, c).
+  Proof.
+    unfold sign. destruct (sign_with_recid' fuel d z) as [[[r' s'] c']| |]; cbn [bind]; split.
+    - intros H; inversion H; subst; eauto.
+    - intros [c H]; inversion H; subst; reflexivity.
+    - discriminate.
+    - intros [c H]; discriminate.
+    - discriminate.
+    - intros [c H]; discriminate.
+  Qed.
+
+  (* ---- totality of the k += 1 loop ---- *)
+  Lemma sign_step_raise d z k e : sign_step' d z k = Raise e -> e = E_TYPE /\ coords (smul k G) = None.
+  Proof.
+    unfold sign_step. intros H.
+    destruct (coords (smul k G)) as [[x y]|] eqn:Ec; [|inversion H; auto].
+    exfalso.
+    assert (Hk : k mod n <> 0).
+    { intros Hk. assert (smul k G = O) as HO.
+      { rewrite (smul_eqm k 0 G), smul_0; [reflexivity|]. apply eqm_zero. exact Hk. }
+      rewrite HO, (gl_coords_O _ _ _ _ _ _ _ GL) in Ec. discriminate. }
+    destruct (inverse_ok k Hk) as [ik [Hi _]]. rewrite Hi in H. cbn [bind] in H.
+    destruct (_ && _) in H; discriminate.
+  Qed.
+
+  Lemma sign_step_no_fuel d z k : sign_step' d z k <> OutOfFuel.
+  Proof.
+    unfold sign_step. destruct (coords (smul k G)) as [[x y]|]; [|discriminate].
+    pose proof (inverse_no_fuel k) as Hi. destruct (inverse n k); cbn [bind]; try discriminate; [|congruence].
+    destruct (_ && _); discriminate.
+  Qed.
+
+  Lemma sign_loop_no_fuel d z : forall fuel k, (- k) mod n < Z.of_nat fuel -> sign_loop' fuel d z k <> OutOfFuel.
+  Proof.
+    induction fuel as [|f IH]; intros k Hk.
+    - pose proof (Z.mod_pos_bound (- k) n ltac:(lia)). lia.
+    - cbn [sign_loop]. pose proof (sign_step_no_fuel d z k) as Hnf.
+      destruct (sign_step' d z k) as [[sg|]| |] eqn:E; cbn [bind]; try discriminate; [|congruence].
+      apply IH.
+      destruct (Z.eq_dec (k mod n) 0) as [Hk0|Hk0].
+      + exfalso. assert (smul k G = O) as HO.
+        { rewrite (smul_eqm k 0 G), smul_0; [reflexivity|]. apply eqm_zero. exact Hk0. }
+        unfold sign_step in E. rewrite HO, (gl_coords_O _ _ _ _ _ _ _ GL) in E. discriminate.
+      + assert (Hm : (- k) mod n = n - k mod n) by (apply Z.mod_opp_l_nz; lia).
+        assert (Hm' : (- (k + 1)) mod n = (- k) mod n - 1).
+        { pose proof (Z.mod_pos_bound k n ltac:(lia)).
+          symmetry. apply (Z.mod_unique_pos _ _ ((- k) / n)); [lia|].
+          pose proof (Z.div_mod (- k) n ltac:(lia)). lia. }
+        lia.
+  Qed.
+
+  (* a raise of the loop is the TypeError at a multiple of the order, every nonce before it rejected *)
+  Lemma sign_loop_raise d z : forall fuel k0 e, sign_loop' fuel d z k0 = Raise e ->
+    e = E_TYPE /\ exists j, k0 <= j /\ coords (smul j G) = None /\ forall i, k0 <= i < j -> sign_step' d z i = Ret None.
+  Proof.
+    induction fuel as [|f IH]; intros k0 e H; cbn [sign_loop] in H; [discriminate|].
+    destruct (sign_step' d z k0) as [[sg|]| |] eqn:E; cbn [bind] in H; try discriminate.
+    - apply IH in H. destruct H as [He [j [Hj [Hc Hb]]]]. split; [exact He|]. exists j. split; [lia|]. split; [exact Hc|].
+      intros i Hi. destruct (Z.eq_dec i k0) as [->|]; [exact E|]. apply Hb. lia.
+    - inversion H; subst. apply sign_step_raise in E. destruct E as [He Hc]. split; [exact He|].
+      exists k0. split; [lia|]. split; [exact Hc|]. intros; lia.
+  Qed.
+
+  (* ---- recovery ---- *)
+  Definition candidate (z r s ir : Z) (R : pt) : pt := add (smul (s * ir) R) (smul (- (ir * z)) G).
+
+  Definition select (y_parity : option Z) (P0 P1 : pt) : list pt :=
+    match y_parity with
+    | None => [P0; P1]
+    | Some yp => if Z.odd yp then [P1] else [P0]
+    end.
+
+  Lemma recover_in_range z r s yp P0 P1 : 1 <= r < n -> 1 <= s < n -> lift_x r = Some (P0, P1) ->
+    exists ir, inverse n r = Ret ir /\ r * ir == 1 /\
+               recover' z r s yp = Ret (map (candidate z r s ir) (select yp P0 P1)).
+  Proof.
+    intros Hr Hs Hl. destruct (inverse_ok r (in_range_nz r Hr)) as [ir [Hi Hir]].
+    exists ir. split; [exact Hi|]. split; [exact Hir|].
+    unfold recover. rewrite (proj2 (out_of_range_false r s)) by tauto. rewrite Hl, Hi. cbn [bind].
+    f_equal. unfold select. destruct yp as [yp|]; [|reflexivity].
+    rewrite land1. destruct (Z.odd yp); reflexivity.
+  Qed.
+
+  Lemma recover_empty z r s yp : ~ (1 <= r < n /\ 1 <= s < n) -> recover' z r s yp = Ret [].
+  Proof.
+    intros H. unfold recover. destruct (out_of_range n r s) eqn:E; [reflexivity|].
+    apply out_of_range_false in E. contradiction.
+  Qed.
+
+  (* verify's sum point for a candidate built from R is R *)
+  Lemma candidate_point z r s ir si R : r * ir == 1 -> s * si == 1 ->
+    sum_point (candidate z r s ir R) z r si = R.
+  Proof.
+    intros Hir Hsi. unfold sum_point, candidate.
+    rewrite smul_add_pt, !smul_smul.
+    rewrite (smul_eqm (r * si * (s * ir)) 1 R).
+    2:{ replace (r * si * (s * ir)) with ((r * ir) * (s * si)) by ring. rewrite Hir, Hsi. reflexivity. }
+    rewrite (gl_smul_1 _ _ _ _ _ _ _ GL).
+    rewrite (gl_comm _ _ _ _ _ _ _ GL R), (gl_assoc _ _ _ _ _ _ _ GL), <- (gl_smul_add _ _ _ _ _ _ _ GL).
+    rewrite (smul_eqm _ 0 G), smul_0; [apply (gl_O_l _ _ _ _ _ _ _ GL)|].
+    replace (z * si + r * si * - (ir * z)) with (z * si - (r * ir) * (z * si)) by ring.
+    rewrite Hir. apply eqm_refl'. ring.
+  Qed.
+
+  (* the candidate built from verify's sum point for Q is Q *)
+  Lemma point_candidate z r s ir si Q : r * ir == 1 -> s * si == 1 ->
+    candidate z r s ir (sum_point Q z r si) = Q.
+  Proof.
+    intros Hir Hsi. unfold sum_point, candidate.
+    rewrite smul_add_pt, !smul_smul.
+    rewrite (smul_eqm (s * ir * (r * si)) 1 Q).
+    2:{ replace (s * ir * (r * si)) with ((r * ir) * (s * si)) by ring. rewrite Hir, Hsi. reflexivity. }
+    rewrite (gl_smul_1 _ _ _ _ _ _ _ GL).
+    rewrite (gl_comm _ _ _ _ _ _ _ GL _ Q), <- (gl_assoc _ _ _ _ _ _ _ GL), <- (gl_smul_add _ _ _ _ _ _ _ GL).
+    rewrite (smul_eqm _ 0 G), smul_0; [apply add_O_r|].
+    replace (s * ir * (z * si) + - (ir * z)) with ((s * si) * (ir * z) - ir * z) by ring.
+    rewrite Hsi. apply eqm_refl'. ring.
+  Qed.
+
+  Hypothesis LL : lift_laws pt coords lift_x x_canon.
+
+  Lemma select_in Q yp P0 P1 : In Q (select yp P0 P1) -> Q = P0 \/ Q = P1.
+  Proof.
+    unfold select. destruct yp as [yp|]; [destruct (Z.odd yp)|]; cbn; intuition.
+  Qed.
+
+  Theorem recover_sound z r s yp l Q : z <> 0 -> x_canon r ->
+    recover' z r s yp = Ret l -> In Q l -> verify' (Some Q) z r s = Ret true.
+  Proof.
+    intros Hz Hcan H Hin.
+    destruct (out_of_range n r s) eqn:E.
+    { unfold recover in H. rewrite E in H. inversion H; subst. destruct Hin. }
+    apply out_of_range_false in E. destruct E as [Hr Hs].
+    destruct (lift_x r) as [[P0 P1]|] eqn:El.
+    2:{ unfold recover in H. rewrite (proj2 (out_of_range_false r s)), El in H by tauto. inversion H; subst. destruct Hin. }
+    destruct (recover_in_range z r s yp P0 P1 Hr Hs El) as [ir [_ [Hir Hrec]]].
+    rewrite Hrec in H. inversion H; subst l. apply in_map_iff in Hin. destruct Hin as [R [HQ HR]]. subst Q.
+    destruct (verify_in_range (candidate z r s ir R) z r s Hz Hr Hs) as [si [_ [Hsi Hv]]].
+    rewrite Hv, (candidate_point z r s ir si R Hir Hsi). f_equal.
+    destruct (ll_sound _ _ _ _ LL r P0 P1 El Hcan) as [[y0 [H0 _]] [y1 [H1 _]]].
+    unfold verdict. apply select_in in HR. destruct HR as [-> | ->]; [rewrite H0|rewrite H1];
+      rewrite Z.mod_small by lia; lia.
+  Qed.
+
+  (* every key under which (r, s) verifies with a sum point of abscissa exactly r is recovered,
+     alone when the parity of that point's ordinate is given *)
+  Theorem recover_complete Q z r s si y : z <> 0 -> 1 <= r < n -> 1 <= s < n ->
+    s * si == 1 -> coords (sum_point Q z r si) = Some (r, y) ->
+    (exists l, recover' z r s None = Ret l /\ In Q l) /\
+    (forall yp, Z.odd yp = Z.odd y -> recover' z r s (Some yp) = Ret [Q]).
+  Proof.
+    intros Hz Hr Hs Hsi Hc.
+    destruct (ll_complete _ _ _ _ LL _ _ _ Hc) as [P0 [P1 [El HR]]].
+    split.
+    - destruct (recover_in_range z r s None P0 P1 Hr Hs El) as [ir [_ [Hir Hrec]]].
+      eexists. split; [exact Hrec|]. apply in_map_iff. exists (sum_point Q z r si).
+      split; [apply point_candidate; assumption|]. rewrite HR. cbn. destruct (Z.odd y); auto.
+    - intros yp Hyp.
+      destruct (recover_in_range z r s (Some yp) P0 P1 Hr Hs El) as [ir [_ [Hir Hrec]]].
+      rewrite Hrec. f_equal. unfold select. rewrite Hyp.
+      rewrite <- (point_candidate z r s ir si Q Hir Hsi). rewrite HR.
+      destruct (Z.odd y); reflexivity.
+  Qed.
+
+  (* the signer's key is recovered when the nonce point's abscissa is below n, i.e. recid < 2 *)
+  Theorem recover_signer fuel d z r s c : sign_with_recid' fuel d z = Ret (r, s, c) -> c < 2 ->
+    recover' z r s (Some c) = Ret [smul d G] /\ exists l, recover' z r s None = Ret l /\ In (smul d G) l.
+  Proof.
+    intros H Hc. apply sign_ret in H. destruct H as [Hz [k0 [k [_ [_ [Hs _]]]]]].
+    apply sign_step_sig in Hs. destruct Hs as [Hsig [_ [x [y [Hxy Hcc]]]]].
+    destruct (sig_with_nonce_verifies d z k r s Hz Hsig) as [Hr [Hs' [_ Hpt]]].
+    destruct (inverse_ok s (in_range_nz s Hs')) as [si [_ Hsi]].
+    destruct Hsig as [x' [y' [Hxy' [Hrx [Hr0 _]]]]]. rewrite Hxy in Hxy'. inversion Hxy'; subst x' y'.
+    destruct (gl_coords_pos _ _ _ _ _ _ _ GL _ _ _ Hxy) as [Hx0 _].
+    rewrite land1 in Hcc.
+    assert (Hxn : x < n).
+    { destruct (n <? x) eqn:E; [destruct (Z.odd y); lia|].
+      destruct (Z.eq_dec x n) as [->|]; [rewrite Z_mod_same_full in Hrx; lia|lia]. }
+    assert (Hrx' : r = x) by (rewrite Hrx; apply Z.mod_small; lia).
+    assert (Hco : coords (sum_point (smul d G) z r si) = Some (r, y)) by (rewrite (Hpt si Hsi), Hrx'; exact Hxy).
+    destruct (recover_complete (smul d G) z r s si y Hz Hr Hs' Hsi Hco) as [H1 H2].
+    split; [|exact H1]. apply H2.
+    destruct (n <? x); [lia|]. subst c. destruct (Z.odd y); reflexivity.
+  Qed.
+End Group.
